@@ -41,7 +41,7 @@ import (
 
 func TestC02System(t *testing.T) {
 	e := vlib.GetEnv()
-	n := e.Pick(48, 1200)
+	n := e.Pick(48, 10000)
 	vlib.RunCases(t, "C02", "system", n, func(c *vlib.Case) vlib.Result {
 		var res vlib.Result
 		kc := genKCase(c.Rng, map[string]bool{"watch-faults": c.Index%5 == 4})
@@ -457,7 +457,7 @@ type c02in struct {
 
 func TestC02Linearizable(t *testing.T) {
 	e := vlib.GetEnv()
-	n := e.Pick(200, 5000)
+	n := e.Pick(200, 40000)
 	model := porcupine.Model{
 		Partition: func(h []porcupine.Operation) [][]porcupine.Operation {
 			mm := map[string][]porcupine.Operation{}
